@@ -8,10 +8,12 @@ package index
 import (
 	"fmt"
 	"math"
+	"os"
 	"regexp/syntax"
 	"sort"
 	"strings"
 	"testing"
+	"time"
 
 	"github.com/RoaringBitmap/roaring/v2"
 	"github.com/grafana/regexp"
@@ -227,6 +229,15 @@ func vfC05GenShardAtom(r *vfRand) query.Q {
 	}
 }
 
+// Boost weights arrive over gRPC as proto doubles: every float64 bit pattern is a possible weight.  Half of the
+// Boost nodes carry an ordinary weight, the other half NaN (two payloads: NaN != NaN, so any rewrite/harness
+// code comparing trees by value instead of by bits would never see a fixpoint), +-Inf, +-0, negative, huge, denormal.
+// Trees are compared through their Coq rendering (math.Float64bits), never with == / reflect.DeepEqual.
+var vfC05BoostWeights = []float64{0.5, 1, 2, 0.5, 1, 2, 1.5, 20,
+	math.NaN(), math.Float64frombits(0xfff8000000000000), math.Inf(1), math.Inf(-1), 0, math.Copysign(0, -1), -1, math.MaxFloat64, 5e-324}
+
+func vfC05BoostWeight(r *vfRand) float64 { return vfC05BoostWeights[r.Intn(len(vfC05BoostWeights))] }
+
 func vfC05GenTree(r *vfRand, depth int) query.Q {
 	if depth <= 0 || r.Chance(30) {
 		return vfC05GenAtom(r)
@@ -241,7 +252,7 @@ func vfC05GenTree(r *vfRand, depth int) query.Q {
 	case 8:
 		return &query.Type{Type: uint8(r.Intn(3)), Child: vfC05GenTree(r, depth-1)}
 	default:
-		return &query.Boost{Boost: []float64{0.5, 1, 2}[r.Intn(3)], Child: vfC05GenTree(r, depth-1)}
+		return &query.Boost{Boost: vfC05BoostWeight(r), Child: vfC05GenTree(r, depth-1)}
 	}
 }
 
@@ -764,6 +775,49 @@ func vfC05RefCase(w *vfC05World, q query.Q) string {
 	return cApp("CRef", repos, langs, retab, rxtab, vfC05Coq(q), cList(docs), cList(sel))
 }
 
+// class label of the Boost weights in a tree: "" (no Boost node), "boost=ordinary", or "boost=special"
+// / "boost=nan" / "boost=inf" (the strongest kind present: nan > inf > other special values)
+func vfC05BoostClass(q query.Q) string {
+	rank := map[string]int{"": 0, "boost=ordinary": 1, "boost=special": 2, "boost=inf": 3, "boost=nan": 4}
+	best := ""
+	up := func(c string) {
+		if rank[c] > rank[best] {
+			best = c
+		}
+	}
+	var walk func(q query.Q)
+	walk = func(q query.Q) {
+		switch s := q.(type) {
+		case *query.And:
+			for _, c := range s.Children {
+				walk(c)
+			}
+		case *query.Or:
+			for _, c := range s.Children {
+				walk(c)
+			}
+		case *query.Not:
+			walk(s.Child)
+		case *query.Type:
+			walk(s.Child)
+		case *query.Boost:
+			switch w := s.Boost; {
+			case math.IsNaN(w):
+				up("boost=nan")
+			case math.IsInf(w, 0):
+				up("boost=inf")
+			case w <= 0 || w > 1e300 || w < 1e-300:
+				up("boost=special")
+			default:
+				up("boost=ordinary")
+			}
+			walk(s.Child)
+		}
+	}
+	walk(q)
+	return best
+}
+
 func vfC05Count(q query.Q) int {
 	n := 1
 	switch s := q.(type) {
@@ -783,6 +837,16 @@ func vfC05Count(q query.Q) int {
 		n += vfC05Count(s.Child)
 	}
 	return n
+}
+
+// A rewrite that does not return (e.g. a fixpoint loop that compares trees by value: NaN != NaN) must end as a
+// reported failing input, not as a test timeout: the watchdog records the tree and exits the test binary.
+func vfC05Watchdog(what string, replay map[string]any) (stop func()) {
+	t := time.AfterFunc(90*time.Second, func() {
+		vfOracleFail(what+":does-not-terminate", what+" did not return within 90 s on "+fmt.Sprint(replay["query"]), replay)
+		os.Exit(3)
+	})
+	return func() { t.Stop() }
 }
 
 func TestVerifC05(t *testing.T) {
@@ -828,7 +892,10 @@ func TestVerifC05(t *testing.T) {
 		}
 		for ri := range vfC05Rewrites {
 			rw := &vfC05Rewrites[ri]
+			stop := vfC05Watchdog(rw.name, map[string]any{"rewrite": rw.name, "query": q.String(), "query_coq": qCoq, "boost": vfC05BoostClass(q),
+				"world": vfC05WorldJSON(w), "seed": vfSeed(), "n": n, "iteration": i})
 			bad, before, after, out := vfC05Fails(w, rw, q)
+			stop()
 			outCoq := vfC05Coq(out)
 			if again := vfC05Coq(q); again != qCoq {
 				vfOracleFail(rw.name+":mutates-input", rw.name+" modified the tree it was given",
@@ -868,6 +935,9 @@ func TestVerifC05(t *testing.T) {
 			class := []string{rw.name, fmt.Sprintf("%s:changed=%v", rw.name, changed), fmt.Sprintf("size=%d", min(size, 12)/3*3)}
 			if _, ok := out.(*query.Const); ok {
 				class = append(class, rw.name+":out=const")
+			}
+			if bc := vfC05BoostClass(q); bc != "" {
+				class = append(class, bc)
 			}
 			vfCase(coq, vfKey(rw.name, coq), changed && size >= 3, class,
 				map[string]any{"rewrite": rw.name, "query": q.String(), "out": out.String()})
